@@ -158,6 +158,20 @@ def handle : Handler
     else if xs.startsWith "ok " then
       some (if dnm == 1 && dem == 0 && dng == 1 && deg == 0 then "ok" else "bad-not-exactly-one-node")
     else some ("bad-outcome " ++ xs)
+  | ["accept-pure", _, a, b] =>
+    -- the constructors are functions of their operands: an earlier call with the same operands returned `a`
+    some (if a == b then "ok" else "bad-same-call-different-result")
+  | ["accept-attrs", opc, fl] =>
+    match fl.toList with
+    | [t, b, c, _] =>
+      some (if attrsOK (Name.keyOfStr opc) (t == '1') (b == '1') (c == '1') then "ok"
+            else s!"bad-branch-attributes-of-{opc}")
+    | _ => some "bad-flags"
+  | ["sfxset", cls] => do
+    let cls ← cls.toNat?
+    let xs := (sfxSetStrings M cls).map (fun l =>
+      if l.isEmpty then "-" else ".".intercalate (l.map Name.toStr))
+    some (strList (xs.mergeSort (fun a b => !(b < a))))
   | "accept-doc" :: fname :: rest => do
     let fname ← unhexStr fname
     let (body, resp) ← splitAtArrow [] rest
@@ -167,6 +181,7 @@ def handle : Handler
   | _ => none
 
 def handlers : List (String × Handler) :=
-  ["class", "instr", "addi", "accept-names", "accept-layers", "accept-doc"].map (·, handle)
+  ["class", "instr", "addi", "accept-names", "accept-layers", "accept-doc", "accept-pure", "accept-attrs",
+   "sfxset"].map (·, handle)
 
 end Avo.Drv.C06
